@@ -6,6 +6,10 @@ def run(ctx):
     q = ctx.quick
     # 1. design level: exhaustive exploration of BFT.tla (4 validators, 1 Byzantine, E = 3)
     ctx.tlc_must_hold("bft", "MCBFT", cfg="MCBFT_quick.cfg", timeout=1800, heap="8g", label="exhaustive design model (3 blocks, 1 Byzantine, 1 restart)")
+    # vacuity guard: finality is reachable inside these bounds (the configuration must violate NeverFinalizes)
+    r = ctx.tlc("bft", "MCBFT", cfg="MCBFT_vac.cfg", timeout=600, label="vacuity guard: finality reachable", count=False)
+    if r.invariant != "NeverFinalizes":
+        raise Infra("vacuity guard: MCBFT_vac.cfg did not violate NeverFinalizes (%s)" % (r.invariant or r.error or "no violation"))
     if not q:
         ctx.tlc_must_hold("bft", "MCBFT", cfg="MCBFT_thorough.cfg", timeout=7200, heap="12g", workers=16,
                           label="exhaustive design model (4 blocks, 2 Byzantine)")
